@@ -351,7 +351,7 @@ def drive(a, prop, tier, cdir, plain, outdir, need_race, log, t0):
 
     # violations: confirm each replay file in a fresh process
     known = load_known(prop)
-    known_sigs = {f["signature"] for f in known if f.get("status") == "known"}
+    known_sigs = {f["signature"] for f in known if f.get("status") == "known" and f["signature"] != os.environ.get("VERIF_UNSUPPRESS")}
     confirmed = []
     seen_sigs = set()
     for s in summaries:
@@ -381,8 +381,16 @@ def drive(a, prop, tier, cdir, plain, outdir, need_race, log, t0):
             continue
         o = replay(racebin(cdir) if race else plain, prop, wit, outdir, race, tier)
         if f.get("status") == "known":
+            hits = sum((s.get("known_hits") or {}).get(f["signature"], 0) for s in summaries)
             if o.get("reproduced"):
                 known_lines.append("KNOWN-FINDING: property=%s %s %s" % (prop, f["signature"], f.get("what", "")))
+            elif hits:
+                # the search met the listed finding again, only the committed witness does not replay any more
+                # (the scenario's generator has grown since it was recorded): tools/refresh_witnesses.py renews it
+                known_lines.append("KNOWN-FINDING: property=%s %s %s" % (prop, f["signature"], f.get("what", "")))
+                print("WARNING witness %s of the known finding %s no longer replays (met %d times by this run's search); run tools/refresh_witnesses.py" % (f["witness"], f["signature"], hits))
+            else:
+                print("NOTE known finding %s: neither its witness nor this run's search reproduced it" % f["signature"])
         elif f.get("status") == "fixed":
             if o.get("reproduced"):
                 regressions.append((f, wit))
